@@ -75,14 +75,18 @@ Theorem C13_typed_paths :
             forallb (path_covered r) paths = true.
 Proof. exact typed_paths. Qed.
 Print Assumptions C13_typed_paths.
-(* FULL_TABLE = the hand-written rows of the 18 classes this development was written against (PdSpec.SPEC_TABLE) + one walking row
-   per class modelled since (a new class with document-capable paths must inherit Resource.policy_documents: an override is refused
-   by Typed/PdCheck.v); the known rows are all still generated, unchanged.  For a class WITHOUT document-capable paths (the security
-   groups) the override flag is immaterial: skipping the walk finds what the walk finds, nothing *)
-Theorem C13_known_rows_unchanged : forall r, In r SPEC_TABLE ->
-  exists ov, In (c_type r, (ov, c_paths r)) PdPaths.PD_TABLE /\ (ov = is_override (c_acc r) \/ c_paths r = []).
+(* FULL_TABLE (Typed/PdFull.v): for a class with an accessor OVERRIDE the hand-written row of PdSpec.SPEC_TABLE -- its
+   document-capable paths are pinned, a path the override does not read would hide documents; for a class read by the inherited WALK,
+   known or modelled since, a walking row with the LIVE paths -- the walk visits every field, so a property added upstream is searched
+   like the others.  For a class WITHOUT document-capable paths (the security groups) the override flag is immaterial: skipping the
+   walk finds what the walk finds, nothing.  Every class this development was written against is still modelled. *)
+Theorem C13_known_rows_unchanged : forall r, In r SPEC_TABLE -> exists ov paths, In (c_type r, (ov, paths)) PdPaths.PD_TABLE.
 Proof. exact known_rows_unchanged. Qed.
 Print Assumptions C13_known_rows_unchanged.
+Theorem C13_override_rows_pinned :
+  forall t ov paths r, In (t, (ov, paths)) PdPaths.PD_TABLE -> spec_row t = Some r -> c_acc r <> AWalk -> paths = c_paths r.
+Proof. exact override_rows_pinned. Qed.
+Print Assumptions C13_override_rows_pinned.
 Theorem C13_typed_generic_field :
   forall (c : cfg) (d : list (str * gvalue)) (r : option recog), generic_obj c (GDict d r) = resource_embedded false c d.
 Proof. exact typed_generic_field. Qed.
